@@ -116,13 +116,13 @@ pub fn run(ctx: &Ctx, rep: &mut Report) {
 
     // ---------------- groups with exhaustive subsets
     let mut specs: Vec<GroupSpec> = Vec::new();
-    let (kmax, engines): (usize, Vec<&'static str>) = if ctx.thorough() { (6, engines_all()) } else { (4, engines_all()) };
+    let (kmax, engines): (usize, Vec<&'static str>) = if ctx.thorough() { (6, engines_all()) } else { (5, engines_all()) };
     for k in 1..=kmax {
         for r in 1..=kmax {
             for &eng in &engines {
                 for codec in codecs_for(eng) {
                     // quick: the slow reference engine and the emulated one only up to n = 6
-                    if !ctx.thorough() && (eng == "naive" || eng == "neonemu" || eng == "ssse3") && k + r > 6 {
+                    if !ctx.thorough() && (eng == "naive" || eng == "neonemu" || eng == "ssse3") && k + r > 7 {
                         continue;
                     }
                     specs.push(GroupSpec { eng, codec, k, r, data: "basis".into(), soil, });
